@@ -625,9 +625,35 @@ Definition ind_eqb (a b : individual) : bool :=
   list_eqb kv_eqb (i_metadata a) (i_metadata b) && opt_eqb Z.eqb (i_native a) (i_native b) &&
   opt_eqb po_eqb (i_pop a) (i_pop b) && String.eqb (i_uid a) (i_uid b).
 
+(* equality of JSON trees up to the order of the keys of an object (keys are unique): the order
+   in which the encoder emits keys is not part of the property; a rewrite of the encoder that
+   changes it must not be reported as a disagreement *)
+Fixpoint json_sim (a b : json) {struct a} : bool :=
+  match a, b with
+  | JArr l, JArr m =>
+      (fix go (l m : list json) {struct l} : bool :=
+         match l, m with
+         | [], [] => true
+         | x :: l', y :: m' => json_sim x y && go l' m'
+         | _, _ => false
+         end) l m
+  | JObj l, JObj m =>
+      Nat.eqb (List.length l) (List.length m) &&
+      (fix go (l : list (string * json)) {struct l} : bool :=
+         match l with
+         | [] => true
+         | x :: l' => match lookup (fst x) m with
+                      | Some y => json_sim (snd x) y
+                      | None => false
+                      end && go l'
+         end) l
+  | JArr _, _ | JObj _, _ => false
+  | _, _ => json_eqb a b
+  end.
+
 Definition res_json_eqb (m : res json) (o : option json) : bool :=
   match m, o with
-  | Ok a, Some b => json_eqb a b
+  | Ok a, Some b => json_sim a b
   | Raise e, None => match e with Unmodelled => false | _ => true end
   | _, _ => false
   end.
